@@ -363,6 +363,17 @@ def check_config(sh, mods, pars, sc, fc, om, case, full=True):
         c.updateGV(pars=po, fast=True)
         for i, nm in enumerate(("gx", "gy", "gz")):
             ok &= cmp(sh, "columnfile.updateGV:%s" % nm, case, c.getcolumn(nm), g[i], 1e-12)
+        # a table that already HAS g-vector columns of another kind (integer placeholders, float32 columns from a compact HDF5 file, the
+        # same array under two names): afterwards they are the full-precision g-vectors all the same, by every route
+        for fast in (True, False):
+            for route in ("updateGV", "updateGeometry"):
+                shared = np.zeros(n, np.float32)
+                c = cf_mod.colfile_from_dict({"sc": sc.copy(), "fc": fc.copy(), "omega": om.copy(), "gx": np.zeros(n, np.int64),
+                                              "gy": shared, "gz": np.full(n, 7, np.int32)})
+                getattr(c, route)(pars=po, fast=fast)
+                for i, nm in enumerate(("gx", "gy", "gz")):
+                    ok &= cmp(sh, "columnfile.%s[%s, g columns of another type existed]:%s" % (route, "fast" if fast else "slow", nm), case,
+                              c.getcolumn(nm), g[i], 1e-12)
     # ---- numba copies (omega sign applied by the caller, as point_by_point does)
     ome = om * pars["omegasign"]
     nx = pbp.compute_xyz_lab(sc.copy(), fc.copy(), y_center=pars["y_center"], y_size=pars["y_size"], tilt_y=pars["tilt_y"],
